@@ -32,6 +32,8 @@ pub open spec fn sec1_decodes(b: Seq<u8>, q: Pt) -> bool {
             else { b.len() == 65 && b[0] == 4 && x == be_val(b.subrange(1, 33)) && y == be_val(b.subrange(33, 65)) },
     }
 }
+// the byte strings a complete decoder accepts: the encodings (in the sense of sec1_decodes) of affine curve points
+pub open spec fn sec1_decodable(b: Seq<u8>) -> bool { exists|q: Pt| #[trigger] sec1_decodes(b, q) && on_curve(q) }
 //@section code gm-sm2/src/u256.rs
 type U256 = [u64; 4];
 const SM2_ZERO: U256 = [0, 0, 0, 0];
@@ -242,15 +244,18 @@ impl Point {
 
     fn from_byte(b: &[u8]) -> (res: Sm2Result<Point>)
         ensures res is Ok ==> wf(res->Ok_0) && fe(res->Ok_0.z@) == 1 && sec1_decodes(b@, abs(res->Ok_0)),
-            (b@.len() != 33 && b@.len() != 65) ==> res is Err
+            (b@.len() != 33 && b@.len() != 65) ==> res is Err,
+            sec1_decodable(b@) ==> res is Ok,
     {
         if b.is_empty() {
+            proof { ecc_dec_rej_shape(b@); }
             return Err(Sm2Error::InvalidPublic);
         }
         let flag = b[0];
         // Compressed Point
         if flag == 0x02 || flag == 0x03 {
             if b.len() != 33 {
+                proof { ecc_dec_rej_shape(b@); }
                 return Err(Sm2Error::InvalidPublic);
             }
             let y_q;
@@ -265,6 +270,7 @@ impl Point {
                 assert(b@.subrange(1, b@.len() as int).subrange(0, 32) =~= b@.subrange(1, 33));
             }
             if u256_cmp(&x_raw, &SM2_P) >= 0 {
+                proof { ecc_dec_rej_x(b@, val4(x_raw@)); }
                 return Err(Sm2Error::InvalidPublic);
             }
             let x = fp_to_mont(&x_raw);
@@ -273,7 +279,10 @@ impl Point {
             let yy = xxx
                 .fp_add(&ax)
                 .fp_add(&SM2_MODP_MONT_B);
-            proof { ecc_cubic(fe(x@), fe(yy@)); }
+            proof {
+                ecc_cubic(fe(x@), fe(yy@));
+                if sec1_decodable(b@) { ecc_sqrt_exp(); ecc_dec_sqrt(b@, fe(x@), fe(yy@), val4(SM2_SQRT_EXP@) as nat); }
+            }
 
             let mut y = fp_sqrt(&yy)?;
             let y_vec = fp_from_mont(&y).to_byte_be();
@@ -301,6 +310,7 @@ impl Point {
         // uncompressed Point
         else {
             if flag != 0x04 || b.len() != 65 {
+                proof { ecc_dec_rej_shape(b@); }
                 return Err(Sm2Error::InvalidPublic);
             }
             let x_raw = u256_from_be_bytes(&b[1..33]);
@@ -311,6 +321,7 @@ impl Point {
                 assert(b@.subrange(33, 65).subrange(0, 32) =~= b@.subrange(33, 65));
             }
             if u256_cmp(&x_raw, &SM2_P) >= 0 || u256_cmp(&y_raw, &SM2_P) >= 0 {
+                proof { if val4(x_raw@) >= P() { ecc_dec_rej_x(b@, val4(x_raw@)); } else { ecc_dec_rej_y(b@, val4(y_raw@)); } }
                 return Err(Sm2Error::InvalidPublic);
             }
             let x = fp_to_mont(&x_raw);
@@ -631,6 +642,8 @@ impl Point {
 //@section spec local
 use vstd::arithmetic::mul::*;
 // ---------------------------------------------------------------- ground facts about the code constants
+proof fn ecc_sqrt_exp() ensures 4 * val4(SM2_SQRT_EXP@) == P() + 1
+{ assert(4 * val4(SM2_SQRT_EXP@) == P() + 1) by(compute); }
 proof fn ecc_consts()
     ensures val4(SM2_P@) == P(), SM2_P@.len() == 4, canon(SM2_ZERO@), val4(SM2_ZERO@) == 0,
         canon(SM2_MODP_MONT_ONE@), val4(SM2_MODP_MONT_ONE@) != 0, fe(SM2_MODP_MONT_ONE@) == 1,
@@ -752,6 +765,95 @@ pub proof fn ecc_inv_range(x: int) ensures 0 <= inv_p(x) < P()
     assert(e > 0);
     assert(pow_mod(x, e, P()) == (pow_mod(x, (e - 1) as nat, P()) * x) % P());
     ecc_range(pow_mod(x, (e - 1) as nat, P()) * x);
+}
+// ---------------------------------------------------------------- square roots: every square passes the test of fp_sqrt
+// (completeness of the compressed-point decoder): for p = 3 (mod 4) and f = y^2, (f^((p+1)/4))^2 = y^(p+1) = y^2
+pub proof fn ecc_pow_range(x: int, e: nat) ensures 0 <= pow_mod(x, e, P()) < P() decreases e
+{ ecc_pos(); if e == 0 { ecc_small(1); } else { ecc_range(pow_mod(x, (e - 1) as nat, P()) * x); } }
+pub proof fn ecc_pow_add(x: int, j: nat, k: nat) ensures pow_mod(x, j + k, P()) == (pow_mod(x, j, P()) * pow_mod(x, k, P())) % P() decreases k
+{
+    ecc_pos();
+    let pj = pow_mod(x, j, P());
+    ecc_pow_range(x, j);
+    if k == 0 {
+        ecc_small(1); assert(pj * 1 == pj); ecc_small(pj);
+    } else {
+        let k1 = (k - 1) as nat;
+        ecc_pow_add(x, j, k1);
+        let pk1 = pow_mod(x, k1, P());
+        assert((j + k - 1) as nat == j + k1);
+        // pow(x, j+k) = (pow(x, j+k1) * x) % p = (((pj * pk1) % p) * x) % p = (pj * pk1 * x) % p = (pj * ((pk1 * x) % p)) % p
+        ecc_mul(pj * pk1, x);
+        ecc_mul(pj, pk1 * x);
+        assert((pj * pk1) * x == pj * (pk1 * x)) by(nonlinear_arith);
+    }
+}
+// pow(y^2 mod p, e) == pow(y, 2e)
+pub proof fn ecc_pow_sq(y: int, e: nat) ensures pow_mod((y * y) % P(), e, P()) == pow_mod(y, 2 * e, P()) decreases e
+{
+    ecc_pos();
+    if e > 0 {
+        let e1 = (e - 1) as nat;
+        ecc_pow_sq(y, e1);
+        let w = pow_mod(y, 2 * e1, P());
+        assert((2 * e - 1) as nat == 2 * e1 + 1 && (2 * e1 + 1 - 1) as nat == 2 * e1);
+        assert(pow_mod(y, (2 * e1 + 1) as nat, P()) == (w * y) % P());
+        assert(pow_mod(y, 2 * e, P()) == (((w * y) % P()) * y) % P());
+        ecc_mul(w * y, y);
+        ecc_mul(w, y * y);
+        assert((w * y) * y == w * (y * y)) by(nonlinear_arith);
+    }
+}
+// Fermat: y^(p+1) == y^2 for every residue y (from ax_inv_p: y * y^(p-2) == 1 for y != 0)
+pub proof fn ecc_pow_p1(y: int) requires 0 <= y < P() ensures pow_mod(y, (P() + 1) as nat, P()) == (y * y) % P()
+{
+    ecc_pos();
+    let e2 = (P() - 2) as nat; let e1 = (P() - 1) as nat; let e0 = P() as nat; let ep = (P() + 1) as nat;
+    assert((ep - 1) as nat == e0 && (e0 - 1) as nat == e1 && (e1 - 1) as nat == e2);
+    let a2 = pow_mod(y, e2, P()); let a1 = pow_mod(y, e1, P()); let a0 = pow_mod(y, e0, P());
+    assert(a1 == (a2 * y) % P());
+    assert(a0 == (a1 * y) % P());
+    assert(pow_mod(y, ep, P()) == (a0 * y) % P());
+    if y == 0 {
+        assert(a0 * y == 0); assert(y * y == 0);
+    } else {
+        ecc_small(y);
+        ax_inv_p(y);
+        assert(a2 == inv_p(y));
+        assert(a2 * y == y * a2) by(nonlinear_arith);
+        assert(a1 == 1);
+        assert(1 * y == y);
+        assert(a0 == y);
+    }
+}
+// the acceptance test of fp_sqrt with exponent e = (p+1)/4 holds for every square
+pub proof fn ecc_sqrt_complete(y: int, f: int, e: nat) requires 0 <= y < P(), f == (y * y) % P(), 4 * e == P() + 1
+    ensures (pow_mod(f, e, P()) * pow_mod(f, e, P())) % P() == f
+{
+    ecc_pow_sq(y, e);
+    ecc_pow_add(y, 2 * e, 2 * e);
+    assert(2 * e + 2 * e == (P() + 1) as nat);
+    ecc_pow_p1(y);
+}
+// ---- rejection sites of Point::from_byte: no affine curve point has these bytes as its encoding
+pub proof fn ecc_dec_rej_shape(b: Seq<u8>)
+    requires b.len() == 0 || ((b[0] == 2 || b[0] == 3) && b.len() != 33) || (b[0] != 2 && b[0] != 3 && (b[0] != 4 || b.len() != 65))
+    ensures !sec1_decodable(b)
+{ }
+pub proof fn ecc_dec_rej_x(b: Seq<u8>, xv: int) requires xv == be_val(b.subrange(1, 33)), xv >= P() ensures !sec1_decodable(b)
+{ }
+pub proof fn ecc_dec_rej_y(b: Seq<u8>, yv: int) requires b.len() == 65, yv == be_val(b.subrange(33, 65)), yv >= P() ensures !sec1_decodable(b)
+{ }
+// compressed form: if some curve point has these bytes, x^3 + ax + b is a square and passes the test of fp_sqrt
+pub proof fn ecc_dec_sqrt(b: Seq<u8>, xv: int, f: int, e: nat)
+    requires b.len() == 33, xv == be_val(b.subrange(1, 33)), f == (xv * xv * xv + CA() * xv + CB()) % P(), 4 * e == P() + 1, sec1_decodable(b)
+    ensures (pow_mod(f, e, P()) * pow_mod(f, e, P())) % P() == f
+{
+    let q = choose|q: Pt| #[trigger] sec1_decodes(b, q) && on_curve(q);
+    match q {
+        Pt::Inf => { }
+        Pt::Aff { x, y } => { assert(x == xv); ecc_sqrt_complete(y, f, e); }
+    }
 }
 // ---------------------------------------------------------------- abstraction of points
 // a point with z == 1 (Montgomery one) denotes (fe x, fe y)
